@@ -116,9 +116,49 @@ pub fn gen_seq(seed: u64) -> Vec<AOp> {
         .collect()
 }
 
-pub fn run_seq(ops: &[AOp]) -> SeqOutcome {
+/// World reactor used only to exercise `App::add_world_reactor_with` as the first thing done to an app.
+struct StartWr;
+impl WorldReactor for StartWr {
+    type StartingTriggers = BroadcastTrigger<u8>;
+    type Triggers = BroadcastTrigger<u8>;
+    fn reactor(self) -> SystemCommandCallback {
+        SystemCommandCallback::new(|| {})
+    }
+}
+
+/// The ways an app that can collect released entities may be assembled; every one of them must end up with the
+/// collection scheduled in `Last`. (The order is derived from the sequence so that replay files need no extra field.)
+pub fn build_app(order: usize) -> App {
     let mut app = App::new();
-    app.setup_auto_despawn();
+    match order % 6 {
+        0 => {
+            app.setup_auto_despawn();
+        }
+        1 => {
+            app.add_plugins(ReactPlugin);
+        }
+        2 => {
+            app.add_reactor(broadcast::<u8>(), || {});
+            app.add_plugins(ReactPlugin);
+        }
+        3 => {
+            app.add_world_reactor_with(StartWr, broadcast::<u8>());
+            app.add_plugins(ReactPlugin);
+        }
+        4 => {
+            app.add_plugins(ReactPlugin);
+            app.add_reactor(broadcast::<u8>(), || {});
+            app.setup_auto_despawn();
+        }
+        _ => {
+            app.add_reactor(broadcast::<u8>(), || {});
+        }
+    }
+    app
+}
+
+pub fn run_seq(ops: &[AOp]) -> SeqOutcome {
+    let mut app = build_app(ops.len());
     let mut ents: Vec<Entity> = (0..NENT).map(|_| app.world_mut().spawn_empty().id()).collect();
     let mut signals: Vec<Vec<AutoDespawnSignal>> = (0..NENT).map(|_| vec![]).collect();
     let mut sh = Shadow { alive: [true; NENT], clones: [0; NENT], pending: vec![], parent: [None; NENT], held: Default::default(), chain_releases: 0 };
@@ -320,8 +360,7 @@ pub struct ThreadOutcome {
 /// One trial: `threads` workers share the clones of `NENT` entities and drop / clone them with seeded spins while
 /// the main thread collects.
 pub fn run_threaded(seed: u64, threads: usize, clones_per_entity: usize, use_update: bool) -> ThreadOutcome {
-    let mut app = App::new();
-    app.setup_auto_despawn();
+    let mut app = build_app(seed as usize);
     let ents: Vec<Entity> = (0..NENT).map(|_| app.world_mut().spawn_empty().id()).collect();
     // hierarchy: entity 1 is a child of 0 (dies with it), the rest are roots
     app.world_mut().entity_mut(ents[1]).set_parent(ents[0]);
@@ -693,7 +732,7 @@ pub fn run_check(cfg: &C10Config) -> (usize, Option<String>) {
         "coverage": {
             "evaluations": cfg.sequences + cfg.trials,
             "distinct_nontrivial": distinct,
-            "rule": "single-threaded: seeded sequences of prepare/clone/drop/gc/App::update/manual-despawn/reparent/respawn/attach (a clone moved into a component of another entity, so that it is dropped when that entity is despawned, possibly in the middle of a collection) over 6 entities checked after every op against an exact reference-count + hierarchy model; non-trivial = a collection ran while some but not all clones of an entity had been dropped; distinct = distinct applied-op shapes. threaded: 2-15 workers drop/clone 1-50 signals per entity with seeded spins/yields while the main thread collects; judged with two atomic counters (pre <= real count <= post); distinct = distinct per-entity histories of (clone-count bucket, liveness) across collections per thread count. rendezvous: per round 64 entities whose last 2-4 clones are held by 2-4 threads that meet at a spin barrier per entity and drop together while the main thread collects; every entity (and child) must be gone after the final collection; the number of entities whose drop calls really overlapped is measured",
+            "rule": "apps are assembled in six orders (setup_auto_despawn alone; ReactPlugin; add_reactor or add_world_reactor_with before the plugin; after it; add_reactor alone) and must all collect in `Last`. single-threaded: seeded sequences of prepare/clone/drop/gc/App::update/manual-despawn/reparent/respawn/attach (a clone moved into a component of another entity, so that it is dropped when that entity is despawned, possibly in the middle of a collection) over 6 entities checked after every op against an exact reference-count + hierarchy model; non-trivial = a collection ran while some but not all clones of an entity had been dropped; distinct = distinct applied-op shapes. threaded: 2-15 workers drop/clone 1-50 signals per entity with seeded spins/yields while the main thread collects; judged with two atomic counters (pre <= real count <= post); distinct = distinct per-entity histories of (clone-count bucket, liveness) across collections per thread count. rendezvous: per round 64 entities whose last 2-4 clones are held by 2-4 threads that meet at a spin barrier per entity and drop together while the main thread collects; every entity (and child) must be gone after the final collection; the number of entities whose drop calls really overlapped is measured",
             "samples": samples,
             "single_threaded_sequences": cfg.sequences,
             "single_threaded_collections": gcs,
